@@ -8,12 +8,12 @@ import RsslVerif.Gen.MslGenTables
    the operand is a literal, otherwise the operand below a cast to the element's type, generated again (fix 5d2f434) — if
    the side-effect test accepts the operand or the struct has exactly one element; otherwise the export fails with
    `UnsupportedCast`.
-2. `generate_intrinsic_op`, arm `RemainderAssignment` on a floating-point target (fix 92d66eb): `a %= b` is emitted as
-   `a = metal::fmod(a, b)`, the target twice, if `is_plain_place` accepts the target; otherwise the export fails with
-   `ComplexRemainderAssignment`.
+2. `generate_intrinsic_op`, arm `RemainderAssignment` on a floating-point target (fixes 92d66eb + 35faaaa): `a %= b` is
+   emitted as `a = metal::fmod(a, b)` — the target twice, and read BEFORE `b` is evaluated — if `is_plain_place` accepts the
+   target and `is_free_of_writes` the right operand; otherwise the export fails with `ComplexRemainderAssignment`.
 
 This file is the executable model of both decisions, driven by the tables `Gen.MslDupSites.structCastGuard` and
-`Gen.MslGenTables.remAssignPlaceGuard / remAssignIndexGuard` that the translator re-extracts from the source
+`Gen.MslGenTables.remAssignPlaceGuard / remAssignIndexGuard / remAssignWritesGuard` that the translator re-extracts from the source
 (constructor ↦ the fields the test recurses into).  Core Lean only.
 -/
 namespace RsslVerif.Model.MslDup
@@ -130,59 +130,65 @@ def structCast (rows : List GuardRow) (oneElementAnything : Bool) (ty : CTy) (in
 def structCastNow (ty : CTy) (inputTy : Nat) (operand : DExpr) : CastOutcome :=
   structCast structCastGuard structCastAcceptsAnythingForOneElement ty inputTy operand
 
-/-! ## the target of a floating-point `%=` -/
+/-! ## the operands of a floating-point `%=` -/
 
 /-- the pattern's operator alternatives admit the node's operator (field 0, an index into `intrinsicOpNames`) -/
-def opOK (r : PlaceRow) : DFields → Bool
-  | .payload p _ =>
-    r.ops.isEmpty || (match intrinsicOpNames[p]? with
-      | some n => r.ops.contains n
-      | none => false)
-  | _ => r.ops.isEmpty
+def opOK (r : PlaceRow) (fs : DFields) : Bool :=
+  r.ops.isEmpty ||
+    match fs with
+    | .payload p _ =>
+      (match intrinsicOpNames[p]? with
+        | some n => r.ops.contains n
+        | none => false)
+    | _ => false
 
+/-- the first arm whose pattern matches the node: the constructor, and one of the operator alternatives if there are any -/
 def findPlaceRow (rows : List PlaceRow) (c : String) (fs : DFields) : Option PlaceRow :=
   rows.find? (fun r => r.ctor == c && opOK r fs)
 
 mutual
-/-- `is_plain_index` as its table describes it -/
-def indexTest (rows : List PlaceRow) : DExpr → Bool
-  | .node c fs =>
+/-- a local test `fn(expr: &ir::Expression) -> bool` as its table describes it.  `tabs` = the table of the test itself, then
+the table of the test it hands its `other` fields to (`is_plain_place` → `is_plain_index`), and so on; no table = `false`.
+The arm of the node's constructor accepts iff every `self` field passes the test itself, every `other` field the next test,
+every element of an `allOf` field the test itself; fields in none of the lists are NOT looked at (what the code does); no
+arm = the `_ => false` arm.  (A `Vec` field handed to a test on one expression, or a `Box` field to `.iter().all`, does not
+type-check in Rust; the model refuses.) -/
+def testD : List (List PlaceRow) → DExpr → Bool
+  | [], _ => false
+  | rows :: more, .node c fs =>
     match findPlaceRow rows c fs with
     | none => false
-    | some r => r.arity == fs.length && indexFields rows r.self r.allOf 0 fs
-def indexFields (rows : List PlaceRow) (self allOf : List Nat) (i : Nat) : DFields → Bool
+    | some r => r.arity == fs.length && testDFields rows more r 0 fs
+def testDFields (rows : List PlaceRow) (more : List (List PlaceRow)) (r : PlaceRow) (i : Nat) : DFields → Bool
   | .nil => true
-  | .payload _ rest => indexFields rows self allOf (i + 1) rest
-  | .one e rest => (!allOf.contains i) && (if self.contains i then indexTest rows e else true) && indexFields rows self allOf (i + 1) rest
-  | .many es rest => (!self.contains i) && (if allOf.contains i then indexAll rows es else true) && indexFields rows self allOf (i + 1) rest
-def indexAll (rows : List PlaceRow) : DExprs → Bool
+  | .payload _ rest => testDFields rows more r (i + 1) rest
+  | .one e rest =>
+    (!r.allOf.contains i) &&
+    (if r.self.contains i then testD (rows :: more) e else if r.other.contains i then testD more e else true) &&
+      testDFields rows more r (i + 1) rest
+  | .many es rest =>
+    (!r.self.contains i) && (!r.other.contains i) && (if r.allOf.contains i then testDAll rows more es else true) &&
+      testDFields rows more r (i + 1) rest
+def testDAll (rows : List PlaceRow) (more : List (List PlaceRow)) : DExprs → Bool
   | .nil => true
-  | .cons e r => indexTest rows e && indexAll rows r
+  | .cons e rest => testD (rows :: more) e && testDAll rows more rest
 end
 
-mutual
-/-- `is_plain_place` as its table describes it (`other` fields go to `is_plain_index`) -/
-def placeTest (prow irow : List PlaceRow) : DExpr → Bool
-  | .node c fs =>
-    match findPlaceRow prow c fs with
-    | none => false
-    | some r => r.arity == fs.length && placeFields prow irow r.self r.other 0 fs
-def placeFields (prow irow : List PlaceRow) (self other : List Nat) (i : Nat) : DFields → Bool
-  | .nil => true
-  | .payload _ rest => placeFields prow irow self other (i + 1) rest
-  | .one e rest =>
-    (if self.contains i then placeTest prow irow e else if other.contains i then indexTest irow e else true) &&
-      placeFields prow irow self other (i + 1) rest
-  | .many _ rest => (!self.contains i) && (!other.contains i) && placeFields prow irow self other (i + 1) rest
-end
+/-- `is_plain_place` with the tables of the current source -/
+def plainPlaceD (e : DExpr) : Bool := testD [remAssignPlaceGuard, remAssignIndexGuard] e
+/-- `is_plain_index` -/
+def plainIndexD (e : DExpr) : Bool := testD [remAssignIndexGuard] e
+/-- `is_free_of_writes` -/
+def freeOfWritesD (e : DExpr) : Bool := testD [remAssignWritesGuard] e
 
 inductive RemAssignOutcome where
   | targetTwice        -- `a = inner(a, b)`
   | refused            -- `Err(GenerateError::ComplexRemainderAssignment)`
   deriving Repr, DecidableEq, Inhabited
 
-/-- the floating-point branch of the `RemainderAssignment` arm, with the tables of the current source -/
-def remAssignNow (target : DExpr) : RemAssignOutcome :=
-  if placeTest remAssignPlaceGuard remAssignIndexGuard target then .targetTwice else .refused
+/-- the floating-point branch of the `RemainderAssignment` arm, with the tables of the current source:
+`!is_plain_place(&exprs[0]) || !is_free_of_writes(&exprs[1])` refuses -/
+def remAssignNow (target rhs : DExpr) : RemAssignOutcome :=
+  if plainPlaceD target && freeOfWritesD rhs then .targetTwice else .refused
 
 end RsslVerif.Model.MslDup
